@@ -48,6 +48,7 @@ class Rec:
         self.hold = []           # keeps every object whose id() is used as a key alive
         self.declared_differs = None
         self.deferred = None
+        self.obs_rng = _random.Random(scn["observe"]) if scn.get("observe") is not None else None
         self.internal = False    # True: run_simulator builds its own WorkloadGenerator; the scheduler wrapper keeps the clock
 
     def probe(self, k, n=1):
@@ -247,6 +248,9 @@ def ensure_wrapper(algo):
         rd["pre_ready"] = _Default(set, {p.pipeline_id: set(id(o) for o in ready_ops(p, ("pending", "failed"))) for _, p in R.open})
         rd["cansusp"] = {c.container_id: (c.can_suspend_container(), c.priority, pl.pool_id)
                          for pl in ex.pools for c in pl.active_containers}
+        if R.obs_rng is not None and R.obs_rng.random() < 0.5:
+            n_, e_ = exdrv.observe(ex, [p for _, p in R.open], R.obs_rng, results=results)
+            R.probe("bystander_reads", n_)
         sus, asg = SCHEDULING_ALGOS[algo](s, results, pipelines)
         rd["sus"], rd["asg"] = list(sus), list(asg)
         if R.keep_rounds:
@@ -298,6 +302,11 @@ def rec_executor_class():
             R = REC
             if R is None:
                 return super().run_one_tick(suspensions, assignments)
+            if R.obs_rng is not None:
+                n_, e_ = exdrv.observe(self, [p for _, p in R.open_pipes()], R.obs_rng, assignments=assignments)
+                R.probe("bystander_reads", n_)
+                if e_:
+                    R.probe("bystander_read_raised", e_)
             if R.scn.get("decoy_at") == R.tick:
                 # another simulation being set up in the same process (two runs stepped side by side) must not disturb
                 # this one: process-wide counters and registries are shared
